@@ -897,7 +897,11 @@ func (r *votesRun) stepChurn() {
 	case 0: // re-bond a slashed oracle
 		if found && !rec.Online && !r.om[i].removed {
 			slash := rec.GetSlashAmount(r.b.K.GetSlashFraction(c.Ctx))
-			res := c.Msg(&crosschaintypes.MsgAddDelegate{ChainName: r.b.Name, OracleAddress: o.Oracle.Bech32(), Amount: sdk.NewCoin(fxtypes.DefaultDenom, slash.Add(unit))})
+			amt := slash.Add(unit)
+			if slash.IsPositive() && r.rng.IntN(2) == 0 {
+				amt = slash // pays exactly the penalty: comes back online with unchanged stake
+			}
+			res := c.Msg(&crosschaintypes.MsgAddDelegate{ChainName: r.b.Name, OracleAddress: o.Oracle.Bech32(), Amount: sdk.NewCoin(fxtypes.DefaultDenom, amt)})
 			r.logf("add-delegate o%d -> %s", i, short(res.ErrString()))
 			if res.OK() {
 				r.res.Count("rebonds", 1)
